@@ -1039,6 +1039,16 @@ func runC16(c *Ctx) {
 			c16NodeJoinsDuringRefresh(c, i)
 		}
 	}
+	for i := 0; i < c.Pick(4, 80); i++ {
+		if j := next(); c.Mine(j) {
+			c16NodeJoinsDuringFailover(c, i)
+		}
+	}
+	for i := 0; i < c.Pick(3, 60); i++ {
+		if j := next(); c.Mine(j) {
+			c16OutageAfterFailedRefresh(c, i)
+		}
+	}
 	for i := 0; i < c.Pick(1, 30); i++ {
 		if j := next(); c.Mine(j) {
 			c16Readiness(c, i)
@@ -1114,6 +1124,143 @@ func c16NodeJoinsDuringRefresh(c *Ctx, idx int) {
 		}
 		r.Violate(mon.Violation{Signature: "C16/added-host-never-connected/node-joined-during-a-refresh", Detail: "host 4's NEW_NODE event reached the proxy while a refresh (started for host 3) was waiting for its system.peers answer, which did not list host 4 yet; 15 s later (refresh window 20 ms) the proxy has no pooled connection to host 4 although the peers table lists it and the control connection is up: the event was lost", Scenario: scenario})
 	}
+}
+
+// c16NodeJoinsDuringFailover: the control connection is lost; the new control connection has registered for events and read
+// the system tables when a node joins - its NEW_NODE event arrives right behind the system.peers answer, possibly before the
+// proxy has finished the fail-over. The event must not be lost: the node gets its pooled connections.
+func c16NodeJoinsDuringFailover(c *Ctx, idx int) {
+	r := c.R
+	scenario := map[string]interface{}{"kind": "node-joins-during-failover", "idx": idx}
+	c.Step("c16 node-joins-during-failover idx=%d", idx)
+	bed, err := px.NewBed(px.BedConfig{Hosts: 4, NumConns: 1, Keyspaces: []string{"ks1"}, Unlisted: []int{4}, RefreshWindow: 20 * time.Millisecond,
+		ReconnectBase: time.Millisecond, ReconnectMax: 3 * time.Millisecond, ConnectTimeout: 3 * time.Second})
+	if err != nil {
+		r.Inconc("c16: cannot start bed: " + err.Error())
+		return
+	}
+	defer bed.Close()
+	if !waitFor(func() bool { return len(bed.Cluster.EstablishedControlConns()) == 1 }, 10*time.Second) {
+		r.Inconc("c16 node-joins-during-failover: no established control connection")
+		return
+	}
+	old := bed.Cluster.EstablishedControlConns()[0]
+	var fired int32
+	delay := time.Duration(idx%4) * 500 * time.Microsecond
+	bed.Cluster.SystemOverride = func(x *fakecass.Conn, table string) message.Message {
+		if x.ID != old.ID && x.IsRegistered() && table == "peers" && atomic.CompareAndSwapInt32(&fired, 0, 1) {
+			go func() {
+				time.Sleep(delay) // the answer (without host 4) goes out first
+				bed.Cluster.SetListed(4, true)
+				bed.Cluster.Emit(&message.TopologyChangeEvent{ChangeType: primitive.TopologyChangeTypeNewNode, Address: &primitive.Inet{Addr: net.ParseIP(bed.Cluster.HostIP(4)), Port: int32(bed.Cluster.Port)}})
+			}()
+		}
+		return nil
+	}
+	old.Host.Stop()
+	defer func() { _ = old.Host.Start(false) }()
+	pooled := func(h int) bool {
+		for _, x := range bed.Cluster.Hosts[h-1].Conns() {
+			if !x.IsRegistered() && x.Ver() != 0 && !x.IsClosed() {
+				return true
+			}
+		}
+		return false
+	}
+	r.Eval(1)
+	r.Obs("node_joins_during_failover_cases", 1)
+	if !waitFor(func() bool { return atomic.LoadInt32(&fired) == 1 && len(bed.Cluster.EstablishedControlConns()) >= 1 }, 20*time.Second) {
+		r.Inconc("c16 node-joins-during-failover: the fail-over was not observed")
+		return
+	}
+	r.NonTrivial("node-joins-during-failover")
+	if !waitFor(func() bool { return pooled(4) }, 15*time.Second) {
+		cl, cerr := bed.ReadyClient(primitive.ProtocolVersion4, "")
+		served := cerr == nil && ProgressSteps(cl, 50, 900)
+		if cl != nil {
+			cl.Close()
+		}
+		if !served || len(bed.Cluster.EstablishedControlConns()) == 0 {
+			r.Inconc("c16 node-joins-during-failover: the proxy is not serving / has no control connection")
+			return
+		}
+		r.Violate(mon.Violation{Signature: "C16/added-host-never-connected/node-joined-during-a-control-failover", Detail: fmt.Sprintf("the control node stopped; host 4 joined %s after the new control connection's system.peers query had been answered (the new connection had registered for events before); 15 s later the proxy has no pooled connection to host 4 although the peers table lists it and a control connection is up: the NEW_NODE event was lost", delay), Scenario: scenario})
+	}
+}
+
+// c16OutageAfterFailedRefresh: the control connection is not lost by the network but given up by the proxy - a refresh query on
+// it is answered with an error - while no node accepts new connections. From then on there is no control connection, and
+// that has to show as a non-zero, growing outage.
+func c16OutageAfterFailedRefresh(c *Ctx, idx int) {
+	r := c.R
+	scenario := map[string]interface{}{"kind": "outage-after-failed-refresh", "idx": idx}
+	c.Step("c16 outage-after-failed-refresh idx=%d", idx)
+	hosts := 1 + idx%3
+	bed, err := px.NewBed(px.BedConfig{Hosts: hosts, NumConns: 1, ReconnectBase: 2 * time.Millisecond, ReconnectMax: 10 * time.Millisecond, RefreshWindow: 20 * time.Millisecond, ConnectTimeout: 200 * time.Millisecond})
+	if err != nil {
+		r.Inconc("c16 outage-after-failed-refresh: cannot start bed: " + err.Error())
+		return
+	}
+	defer bed.Close()
+	if !waitFor(func() bool { return len(bed.Cluster.EstablishedControlConns()) == 1 }, 10*time.Second) {
+		r.Inconc("c16 outage-after-failed-refresh: no established control connection")
+		return
+	}
+	ctl := bed.Cluster.EstablishedControlConns()[0]
+	if d := bed.Proxy.OutageDuration(); d != 0 {
+		r.Violate(mon.Violation{Signature: "C16/outage-reported-while-connected", Detail: fmt.Sprintf("OutageDuration() = %s while a control connection is established", d), Scenario: scenario})
+		return
+	}
+	for _, h := range bed.Cluster.Hosts {
+		h.StopListener() // established connections stay, nobody gets a new one
+	}
+	defer func() {
+		for _, h := range bed.Cluster.Hosts {
+			_ = h.Start(false)
+		}
+	}()
+	var failed int32
+	bed.Cluster.SystemOverride = func(x *fakecass.Conn, table string) message.Message {
+		if x.ID == ctl.ID {
+			atomic.AddInt32(&failed, 1)
+			return &message.Overloaded{ErrorMessage: "system query refused"}
+		}
+		return nil
+	}
+	before := len(bed.Policy.Calls.Snapshot())
+	bed.Cluster.Emit(&message.StatusChangeEvent{ChangeType: primitive.StatusChangeTypeUp, Address: &primitive.Inet{Addr: net.ParseIP(bed.Cluster.HostIP(1)), Port: int32(bed.Cluster.Port)}})
+	// the proxy gave the connection up (it closes it) and its reconnect attempts fail: delays are being asked for
+	gaveUp := waitFor(func() bool {
+		if atomic.LoadInt32(&failed) == 0 || !ctl.IsClosed() {
+			return false
+		}
+		n := 0
+		for _, cl := range bed.Policy.Calls.Snapshot()[before:] {
+			if cl.Kind == "delay" {
+				n++
+			}
+		}
+		return n >= 3
+	}, 10*time.Second)
+	r.Eval(1)
+	r.Obs("outage_after_failed_refresh_cases", 1)
+	if !gaveUp {
+		r.Obs("outage_after_failed_refresh_not_given_up", 1) // the proxy kept the connection: nothing to judge
+		return
+	}
+	r.NonTrivial(fmt.Sprintf("outage-after-failed-refresh/h%d", hosts))
+	time.Sleep(20 * time.Millisecond)
+	d1 := bed.Proxy.OutageDuration()
+	time.Sleep(5 * time.Millisecond)
+	d2 := bed.Proxy.OutageDuration()
+	if len(bed.Cluster.EstablishedControlConns()) > 0 {
+		return // it found a way back in after all
+	}
+	if d1 <= 0 || d2 < d1 {
+		r.Violate(mon.Violation{Signature: "C16/outage-not-reported-while-down/after-failed-refresh", Detail: fmt.Sprintf("a refresh query on the control connection was answered with an error, the proxy closed that connection, no node accepts new connections and at least three reconnect delays have been asked for: OutageDuration() = %s then %s", d1, d2), Scenario: scenario})
+		return
+	}
+	r.Obs("outage_positive_samples", 1)
 }
 
 func c16RefreshWithEvent(c *Ctx, idx int, during string) {
